@@ -188,7 +188,16 @@ static void check_state(Ctx &c, const Cfg &cfg, TasmanianSparseGrid &g, const st
                     for(int i=0;i<n;i++){ double ph = 0; for(int j=0;j<d;j++){ double u = tr ? (x[i*d+j] - cfg.ta[j]) / (cfg.tb[j] - cfg.ta[j]) : x[i*d+j]; ph += 2 * M_PI * kk[j] * u; } s += iw[i] * std::complex<double>(std::cos(ph), std::sin(ph)); sa += std::abs(iw[i]); }
                     double ph = 0; for(int j=0;j<d;j++){ double u = tr ? (xt[j] - cfg.ta[j]) / (cfg.tb[j] - cfg.ta[j]) : xt[j]; ph += 2 * M_PI * kk[j] * u; }
                     std::complex<double> ex(std::cos(ph), std::sin(ph)); c.evals++;
-                    if (std::abs(s - ex) > 1e-9 * std::max(1.0, sa)){ std::ostringstream o; o << "fourier mode k=("; for(int j=0;j<d;j++) o << kk[j] << (j+1<d?",":""); o << ") not reproduced by interpolation weights at probe " << t << ": " << s.real() << "+" << s.imag() << "i vs " << ex.real() << "+" << ex.imag() << "i"; report(c, "C03:iexact:fourier:weights", cfg, hist, o.str()); break; }
+                    if (std::abs(s - ex) > 1e-9 * std::max(1.0, sa)){ std::ostringstream o; o.precision(12); o << "fourier mode k=("; for(int j=0;j<d;j++) o << kk[j] << (j+1<d?",":""); o << ") not reproduced by interpolation weights at probe " << t << ": " << s.real() << "+" << s.imag() << "i vs " << ex.real() << "+" << ex.imag() << "i";
+                        // One specific cause has its own signature: GridFourier::getInterpolationWeights() treats a point with |1 - cos(theta)| < num_tol (theta = 2 pi (x - node)) as the node itself,
+                        // which is exact only to (theta N)^2. It applies when the probe is inside that window of a node (not on it) and the error is explained by that bound.
+                        double bound = 0;
+                        for(int j=0;j<d;j++){ long N = 1; for(int L=0; L<12; L++, N*=3){ bool all = true; for(int i=0;i<n && all;i++){ double u = (tr ? (x[i*d+j] - cfg.ta[j]) / (cfg.tb[j] - cfg.ta[j]) : x[i*d+j]) * N; if (std::abs(u - std::round(u)) > 1e-6) all = false; } if (all) break; }
+                            double u = (tr ? (xt[j] - cfg.ta[j]) / (cfg.tb[j] - cfg.ta[j]) : xt[j]) * N; double th = 2.0 * M_PI * std::abs(u - std::round(u)) / N;
+                            if (th > 1e-13 && th * th / 2.0 < 1.5e-12) bound += (th * N) * (th * N); }
+                        bool window = bound > 0 && std::abs(s - ex) <= 2.0 * bound * std::max(1.0, sa) + 1e-9 * std::max(1.0, sa);
+                        if (window) o << " (the probe lies within the 'is a node' window of the weights, error bound (theta N)^2 = " << bound << ")";
+                        report(c, std::string("C03:iexact:fourier:weights") + (window ? ":near-node-window" : ""), cfg, hist, o.str()); break; }
                 }
                 continue;
             }
